@@ -13,11 +13,19 @@
 (*        transaction the predicate rejects ("accepted only if ...")       *)
 (*   Inv.Complete.rejected:<kind>:<mut>   an honestly built transaction     *)
 (*        was rejected ("honestly signed transactions are always accepted")*)
+(*   Inv.Authentic.pooled / .held:...     a transaction the predicate      *)
+(*        rejects was filed by AddTransaction / is what the pool answers   *)
+(*        for its declared hash                                            *)
 (*   Inv.Total.panic:<kind>               VerifyTransaction panicked       *)
+(* Every judgement is made in the pool context of the event (ctx: empty,   *)
+(* original pending / executed / rolled back, other transaction of the     *)
+(* sender pending, delivered twice): the reference Admit ignores the pool. *)
 (* Conformance tags                                                        *)
 (*   rejected-unauth:<kind>:<mut>  rejected although only fields outside   *)
 (*        the hash / the comparison differ (the statement does not promise *)
 (*        acceptance here)                                                 *)
+(*   pooled:<kind>:<mut>           an admitted transaction was (not) filed *)
+(*        although its declared hash was (not) known to the pool           *)
 (*   Proj.same:<kind>:<mut>        the concrete instance does not differ   *)
 (*        from its base exactly where the abstract mutation says           *)
 (* The high-S twin (r, n-s, v^1) of an honest signature is a change of the *)
@@ -52,19 +60,37 @@ EthKey(tx, n) ==
     [] n = "ExtraData" -> <<p, tx.ed>>
     [] OTHER -> <<v>>
 KeyOf(tx, n) == IF tx.kind = "native" THEN NativeKey(tx, n) ELSE EthKey(tx, n)
+ContentDiffers(tx, base) == \E n \in HashedSet : KeyOf(tx, n) # KeyOf(base, n)
+
+(* one delivery (VerifyTransaction, then AddTransaction on nil) into the pool `pool` *)
+JudgeDelivery(d, tx, h, pool, cls, who) ==
+  LET acc == Admit(pool, tx, h) IN
+  IF d.panic THEN <<>>
+  ELSE (IF d.ok /\ ~acc THEN <<"Inv.Authentic.accepted:" \o who>>
+        ELSE IF ~d.ok /\ acc THEN
+               (IF cls = "unauth" THEN <<"rejected-unauth:" \o who>> ELSE <<"Inv.Complete.rejected:" \o who>>)
+        ELSE <<>>) \o
+       Tag(d.pooled => acc, "Inv.Authentic.pooled:" \o who) \o
+       (IF d.ok /\ acc THEN Tag(d.pooled = Pooled(pool, tx, h), "pooled:" \o who) ELSE <<>>)
 
 JudgeVerify(e) ==
   LET tx == e.tx
-      acc == Accept(tx, e.h)
-      \* for a bit flip in the RLP payload the flipped byte (before>after) is part of the class
+      \* for a bit flip in the RLP payload the flipped byte (before>after) is part of the class,
+      \* and so is the pool context unless the pool is empty
       who == e.kind \o ":" \o e.mut \o (IF e.edflip = "" THEN "" ELSE ":" \o e.edflip)
-  IN  Tag(~e.panic, "Inv.Total.panic:" \o e.kind) \o
+                   \o (IF e.ctx = "empty" THEN "" ELSE ":" \o e.ctx)
+      pool == PoolOf(e.ctx, e.base, tx, e.h)
+  IN  Tag(~e.panic /\ ~e.first.panic, "Inv.Total.panic:" \o e.kind) \o
       Tag(\A n \in AllFields : e.same[n] = (KeyOf(tx, n) = KeyOf(e.base, n)), "Proj.same:" \o who) \o
-      (IF e.panic THEN <<>>
-       ELSE IF e.ok /\ ~acc THEN <<"Inv.Authentic.accepted:" \o who>>
-       ELSE IF ~e.ok /\ acc THEN
-              (IF e.cls = "unauth" THEN <<"rejected-unauth:" \o who>> ELSE <<"Inv.Complete.rejected:" \o who>>)
-       ELSE <<>>)
+      Tag(e.ctx \in Contexts, "Proj.context") \o
+      JudgeDelivery(e, tx, e.h, pool, e.cls, who) \o
+      \* the pool answers with this content for the declared hash only if the content is authentic
+      \* (or it is, field for field, the content of a transaction the pool was given in this context)
+      Tag(e.holds => Accept(tx, e.h) \/ \E p \in pool.pending \cup pool.executed : ~ContentDiffers(tx, p),
+          "Inv.Authentic.held:" \o who) \o
+      (IF e.ctx = "twice"
+         THEN JudgeDelivery(e.first, tx, e.h, PoolOf("empty", e.base, tx, e.h), e.cls, who \o ":first")
+         ELSE <<>>)
 
 Judge(e) == IF e.event = "Verify" THEN JudgeVerify(e) ELSE <<"unknown-event">>
 
